@@ -904,6 +904,11 @@ CHOICE_decode_uper(const asn_codec_ctx_t *opt_codec_ctx,
 	}
 	ASN_DEBUG("Discovered CHOICE %s encodes %s", td->name, elm->name);
 
+	if(!elm->type->op->uper_decoder) {
+		/* PER is not defined for this member's type */
+		ASN__DECODE_FAILED;
+	}
+
 	if(ct && ct->range_bits >= 0) {
 		rv = elm->type->op->uper_decoder(opt_codec_ctx, elm->type,
 			elm->encoding_constraints.per_constraints, memb_ptr2, pd);
@@ -990,6 +995,11 @@ CHOICE_encode_uper(const asn_TYPE_descriptor_t *td,
         if(!memb_ptr) ASN__ENCODE_FAILED;
 	} else {
         memb_ptr = (const char *)sptr + elm->memb_offset;
+    }
+
+    if(!elm->type->op->uper_encoder) {
+        /* PER is not defined for this member's type */
+        ASN__ENCODE_FAILED;
     }
 
     if(ct && ct->range_bits >= 0) {
